@@ -16,6 +16,9 @@ type Session struct {
 	sendMtx        sync.Mutex
 	readMtx        sync.Mutex
 	maxMessageSize uint32
+	// recvErr is set once the framing of the incoming stream is lost.
+	// guarded by readMtx
+	recvErr error
 }
 
 // NewSession builds a new session.
@@ -68,6 +71,12 @@ func (s *Session) RecvMsg(msg protobuf_go_lite.Message) error {
 	s.readMtx.Lock()
 	defer s.readMtx.Unlock()
 
+	// after an invalid length prefix the position of the next frame is
+	// unknown: reading on would parse message bytes as a length prefix.
+	if s.recvErr != nil {
+		return s.recvErr
+	}
+
 	if _, err := io.ReadFull(s.ReadWriteCloser, data); err != nil {
 		return err
 	}
@@ -75,7 +84,8 @@ func (s *Session) RecvMsg(msg protobuf_go_lite.Message) error {
 	messageLen := binary.LittleEndian.Uint32(data)
 	if messageLen > 0 {
 		if messageLen > s.maxMessageSize {
-			return errors.Errorf("invalid message len: %d", messageLen)
+			s.recvErr = errors.Errorf("invalid message len: %d", messageLen)
+			return s.recvErr
 		}
 
 		data = make([]byte, messageLen)
